@@ -243,12 +243,11 @@ IsCmakeDefine(line) ==
     LET f == FirstNonWs(line) IN
     f <= Len(line) /\ line[f] = HASH /\ StartsWith(line, f + 1 + RunFrom(line, f + 1, IsWs), KwCmakedefine)
 
-\* the tokens after "#", "cmakedefine[01]": the variable and the rest of the line
-CmakeDefineArgs(line) ==
-    LET f == FirstNonWs(line)
-        toks == Tokens(SubSeq(line, f + 1, Len(line)))      \* cmakedefine[01] VAR rest...
-    IN Tail(toks)
-
+\* the tokens after "#": cmakedefine[01], the variable, the rest of the line
+\*   #cmakedefine VAR rest...   VAR set and true (non-zero, non-empty): "#define VAR rest..." with the
+\*                              placeholders of the rest replaced; else "/* #undef VAR */"
+\*   #cmakedefine01 VAR         "#define VAR 1" / "#define VAR 0"
+\* the line keeps its terminator; undefined names in the rest are reported like anywhere else
 CmakeDefine(line, conf, atOnly) ==
     LET f    == FirstNonWs(line)
         toks == Tokens(SubSeq(line, f + 1, Len(line)))
